@@ -154,7 +154,9 @@ func scenarioSessionDeadline(ctx *RunCtx) {
 					opts := []Opt{{Name: "WithScopes", Scopes: serverScopes}, {Name: "WithAuthorizationCodeGrant"},
 						{Name: "WithAuthenticationSessionTimeout", Z: timeout}}
 					if par {
-						opts = append(opts, Opt{Name: "WithPAR", Z: 60})
+						// a pushed request that lives LONGER than the session timeout: the deadline of the
+						// interaction is the session timeout counted from /authorize all the same
+						opts = append(opts, Opt{Name: "WithPAR", Z: 3 * timeout})
 					}
 					g, err := NewSysGen(ctx.R, WorldSpec{Profile: "openid", Flavour: fl, Static: baseClients(ctx.R), Opts: opts})
 					if err != nil {
@@ -614,10 +616,10 @@ func init() {
 	}})
 	histSuite("c02", "mon_C02", "authorization requests (GET and POST; plain and pushed) over redirect_uri variants (exact, prefix/suffix/case/port/scheme/userinfo/percent-encoding variations, pushed-unregistered URIs replayed in plain requests, outer/inner disagreement, absent) crossed with error-producing parameters, response modes and policy outcomes; sequences with pushed unregistered redirect URIs followed by ordinary requests",
 		140, 5000, 34, map[string]bool{"par": true, "implicit": true},
-		map[string]int{"authorize": 34, "callback": 16, "par": 16, "code": 6, "refresh": 1, "cc": 1, "query": 3, "tick": 5, "bc": 1, "poll": 1, "notify": 1}, 45)
+		map[string]int{"authorize": 34, "callback": 16, "par": 16, "code": 6, "refresh": 1, "cc": 1, "query": 3, "tick": 5, "bc": 1, "poll": 1, "notify": 1}, 45, scenarioRedirectMatrix)
 	histSuite("c03", "mon_C03x", "scenario matrix: every PKCE configuration (off, each method alone, both with either default, required) x challenge forms (method named S256 / plain, method left out with the challenge made for S256 / for plain, none) x verifiers (pre-image, the challenge string itself, wrong, too short, absent), direct and through a pushed request; then interleaved authorizations for several clients/users, redemptions by the right or another client with right/wrong/absent redirect_uri and code_verifier (both methods, method named or left to the server's default), ticks across the 60 s code lifetime, replays, then uses of the resulting tokens",
 		120, 4000, 34, map[string]bool{"pkce": true, "refresh": true},
-		map[string]int{"authorize": 20, "callback": 8, "par": 3, "code": 26, "refresh": 8, "cc": 1, "query": 18, "tick": 8, "bc": 1, "poll": 1, "notify": 1}, 35, scenarioPkceMatrix)
+		map[string]int{"authorize": 20, "callback": 8, "par": 3, "code": 26, "refresh": 8, "cc": 1, "query": 18, "tick": 8, "bc": 1, "poll": 1, "notify": 1}, 35, scenarioPkceMatrix, scenarioRedirectMatrix, scenarioEmptyCode)
 	register(&Suite{Name: "c10near", Run: func(ctx *RunCtx) {
 		// refreshes inside the last access-token lifetime before the absolute expiry of the grant, then
 		// just past it: the expiry must not have moved, the token must be refused and the grant removed
@@ -668,10 +670,10 @@ func init() {
 	}})
 	histSuite("c10", "mon_C10x", "refresh chains of 1-30 refreshes with requested sub/supersets, by the owning or another client, ticks up to and beyond the grant lifetime, rotation on and off, grants from authorization_code, CIBA and jwt-bearer; introspection of refresh tokens",
 		100, 4000, 40, map[string]bool{"refresh": true, "ciba": true, "jwtbearer": true},
-		map[string]int{"authorize": 10, "callback": 4, "par": 1, "code": 12, "refresh": 34, "cc": 1, "jwtbearer": 5, "query": 16, "tick": 9, "bc": 5, "poll": 7, "notify": 1}, 30, scenarioRotationPolicy, scenarioGrantedSubset)
+		map[string]int{"authorize": 10, "callback": 4, "par": 1, "code": 12, "refresh": 34, "cc": 1, "jwtbearer": 5, "query": 16, "tick": 9, "bc": 5, "poll": 7, "notify": 1}, 30, scenarioRotationPolicy, scenarioGrantedSubset, scenarioExpiredGrantRemoved)
 	histSuite("c16", "mon_C16", "CIBA histories over poll/ping/push clients with user code, scripted embedder decisions (pending, slow down, approve, deny, error), polls by the initiating or another client, ticks across the request lifetime, success/failure notifications through the provider API",
 		120, 4000, 34, map[string]bool{"ciba": true, "refresh": true},
-		map[string]int{"authorize": 2, "callback": 1, "par": 1, "code": 2, "refresh": 5, "cc": 1, "query": 10, "tick": 9, "bc": 24, "poll": 30, "notify": 14}, 30, scenarioCibaDenialEnds)
+		map[string]int{"authorize": 2, "callback": 1, "par": 1, "code": 2, "refresh": 5, "cc": 1, "query": 10, "tick": 9, "bc": 24, "poll": 30, "notify": 14}, 30, scenarioCibaDenialEnds, scenarioCibaLifetime)
 	histSuite("c17", "mon_C17", "interleavings of several users' and clients' interactive flows with multi-step policies (succeed, fail, abandoned), ticks across the session timeout, stale/foreign/unknown callback ids, flows started from pushed requests",
 		120, 4000, 36, map[string]bool{"par": true},
 		map[string]int{"authorize": 26, "callback": 30, "par": 10, "code": 8, "refresh": 2, "cc": 1, "query": 8, "tick": 9, "bc": 1, "poll": 1, "notify": 1}, 30, scenarioSessionDeadline)
